@@ -168,7 +168,7 @@ class RMAX(Learns):
                 break
             self.q_matrix[mask] = new_q[mask]
 
-    @cached_property
+    @property
     def _self_transition_mat(self):
         self_transition_mat = np.zeros_like(self.transitions)
         self_transition_mat[np.arange(self.n_states), :, np.arange(self.n_states)] = 1
